@@ -638,6 +638,34 @@ def run_stored(case, ctx, rng, simu, info, key0):
     key = key0 + "/stored-iterations"
     n_it = 3
     states = []
+    if info["base"] == "phasefield":
+        # first, real load steps (load, load more, unload) with the staggered solver: the energy reported right after each Solve is
+        # the one a brand-new simulation holding that displacement and that damage reports
+        mesh_ = simu.mesh
+        Xs = mesh_.coord
+        used_ = gm.used_nodes(mesh_)
+        xs_ = Xs[used_, 0]
+        Lx_ = float(xs_.max() - xs_.min())
+        n0_, nL_ = used_[np.abs(xs_ - xs_.min()) < 1e-9], used_[np.abs(xs_ - xs_.max()) < 1e-9]
+        un_ = ["x", "y", "z"][: info["dim"]]
+        with ctx.monitored("no-exception", key0 + "/after-solve/raised"):
+            with quiet():
+                for lam in (0.10, 0.16, 0.04, 0.12):
+                    simu.Bc_Init()
+                    simu.add_dirichlet(n0_, [0.0] * len(un_), un_)
+                    simu.add_dirichlet(nL_, [lam * Lx_], ["x"])
+                    u_, d_, _ = simu.Solve()
+                    got = {nm: simu.Result(nm) for nm in ("Wdef", "Psi_Crack") if nm in simu.Results_Available()}
+                    twin, _ = build(case, np.random.default_rng([case["seed"], NUM, case["index"]]))
+                    twin._Set_solutions(twin.ProblemTypes.elastic, np.asarray(u_, float).copy())
+                    twin._Set_solutions(twin.ProblemTypes.damage, np.asarray(d_, float).copy())
+                    twin.Need_Update()
+                    wref = float(twin.Result("Wdef"))
+                    # (the stiffness kept after a converged staggered step may be the one of its last pass: it differs from K(d returned) by
+                    # the last damage increment, observed <= 3e-6 relative; a stiffness of another state is off by orders of magnitude more)
+                    ctx.check("energy", abs(float(got["Wdef"]) - wref) / max(abs(wref), 1e-300), 1e-3, f"{key0}/after-solve/Wdef", load=lam, solver=info.get("solver"),
+                              damage_max=float(np.max(d_)))
+                simu.Bc_Init()
     with ctx.monitored("no-exception", key + "/raised"):
         with quiet():
             for i in range(n_it):
@@ -780,6 +808,12 @@ def run_equilibrium(case, ctx, rng, simu, info, key0):
                     ctx.check("reaction", abs(res["cz"][n0].sum() + load["y"] * L) / max(abs(load["y"] * L), 1e-300), 1e-8, f"{key0}/balance/moment")
                 if dim == 3:
                     ctx.check("reaction", abs(res["cy"][n0].sum() - load["z"] * L) / max(abs(load["z"] * L), 1e-300), 1e-8, f"{key0}/balance/moment")
+                # internal forces of the statically determinate cantilever: every cross-section carries the tip load (same sign convention
+                # for the normal force and for both shear forces, whatever the beam theory)
+                for nm, d in (("N", "x"), ("Ty", "y"), ("Tz", "z")):
+                    if d in load and nm in simu.Results_Available():
+                        v_ = np.asarray(simu.Result(nm, nodeValues=False), float)
+                        ctx.check("reaction", float(np.abs(v_ - load[d]).max()) / max(abs(load[d]), 1e-300), 1e-7, f"{key0}/balance/internal-force-{nm}")
                 return
             if base == "elastic":
                 un = simu.Get_unknowns()
